@@ -72,13 +72,13 @@ def exact_tie_breaker(run):
 def check(run):
     funcs, info = engine.load_mir('ibig')
     run.mir_info.append(info)
-    GR.halfspace_new_and_clip(run, funcs, 'C05')
-    GR.cuboid(run, funcs, 'C05')
-    GR.right_loc(run, funcs, 'C05')
-    GR.build_loop(run, funcs, 'C05')
-    exact_tie_breaker(run)
+    run.guard(GR.halfspace_new_and_clip, funcs, 'C05')
+    run.guard(GR.cuboid, funcs, 'C05')
+    run.guard(GR.right_loc, funcs, 'C05')
+    run.guard(GR.build_loop, funcs, 'C05')
+    run.guard(exact_tie_breaker)
     kanirun.run(run, 'C05', KANI_QUICK if run.tier == 'quick' else KANI_THOROUGH, jobs=12)
-    known_findings(run)
+    run.guard(known_findings)
     run.assume('bit-precise claim: positions in [A - W - h, A + 2W] as computed in f64; a mirror image that rounding pushes a few ulps above A + 2W is covered only by the real-arithmetic obligation (margin W/8)')
     run.assume('global consistency of tie decisions, termination of the whole build and the det != 0 assert of intersect_planes on near-parallel bisectors are outside the claim')
     return run.finish(LEVEL, EXPLANATION, trusted=['rustc -Zunpretty=mir', 'z3 5.1.0 / 4.8.12, cvc5 1.0.3', 'Kani 0.68 / CBMC 6.11 (IEEE-754 model)'])
